@@ -30,8 +30,8 @@ def gen_tokens(r, n):
         elif c < 0.69: toks.append(("TRParen", ")"))
         elif c < 0.79: toks.append(("TWs", r.choice([" ", "  ", "\t"])))
         elif c < 0.87: toks.append(("TNl", "\n"))
-        elif c < 0.92: toks.append(("TLineComment", r.choice(["-- c;\n", "--x\n", "-- ; ;\n"])))
-        elif c < 0.97: toks.append(("TBlockComment", r.choice(["/* ; */", "/* a\n;b */", "/**/"])))
+        elif c < 0.92: toks.append(("TLineComment", r.choice(["-- c;\n", "--x\n", "-- ; ;\n", "--+ h;\n"])))
+        elif c < 0.97: toks.append(("TBlockComment", r.choice(["/* ; */", "/* a\n;b */", "/**/", "/*+ h; */"])))
         else: toks.append(("TEnd", r.choice(["end", "END"])))
     return toks
 
@@ -125,7 +125,8 @@ def main() -> int:
 
     # ---- scripts of generated statements x separator variants --------------------------------------
     seps = {"semi": "; ", "semi-nl": ";\n", "double-semi": ";;\n", "line-comment": "; -- next; one\n",
-            "block-comment": ";/* a;b */ ", "blank-lines": ";\n\n\n", "semi-comment-semi": "; /* x */ ;\n"}
+            "block-comment": ";/* a;b */ ", "blank-lines": ";\n\n\n", "semi-comment-semi": "; /* x */ ;\n",
+            "hint-only-statement": ";\n/*+ no_merge */ ;\n", "line-hint-only-statement": ";\n--+ ordered\n;\n"}
     n_scripts = 140 if quick else 1500
     for i in range(n_scripts):
         k = r.randint(1, 5)
@@ -134,8 +135,8 @@ def main() -> int:
             stmts[r.randrange(k)] = "insert into s3.out1 select 'a;b' as k from t4"
         name = r.choice(list(seps))
         dist["separator_variants"][name] = dist["separator_variants"].get(name, 0) + 1
-        lead = r.choice(["", "-- header; comment\n", "/* lead */\n", "\n\n"])
-        trail = r.choice(["", ";", ";\n-- bye;\n", " ;; "])
+        lead = r.choice(["", "-- header; comment\n", "/* lead */\n", "\n\n", "/*+ lead hint */;\n", "--+ lead\n;"])
+        trail = r.choice(["", ";", ";\n-- bye;\n", " ;; ", ";\n/*+ bye */", ";--+ bye\n;"])
         script = lead + seps[name].join(stmts) + trail
         ck.count()
         dist["scripts"] += 1
@@ -209,7 +210,7 @@ def main() -> int:
                 "correspondence T1/T4 between Split/Tokens.v, Tree/Script.v (theorems c05_*) and sqllineage/utils/helpers.py, runner.py",
                 "statement lists and per-statement combination were evaluated on every script of this run; no failing input")
     return ck.finish(rule="token sequences of length 1-14 over 9 token classes (code incl. literals containing ';', ';', parentheses, blanks, newlines, "
-                          "line/block comments containing ';', END) checked against sqlparse's lexer; scripts of 1-5 generated statements x 7 separator "
+                          "line/block comments containing ';', END) checked against sqlparse's lexer; scripts of 1-5 generated statements x 9 separator "
                           "variants x leading/trailing layout; T-SQL scripts without semicolons incl. repeated statements; non-trivial = text split "
                           "into >=2 pieces / distinct script")
 
